@@ -142,3 +142,13 @@ Module Binary64.
   Proof. exact f_floorZ_spec. Qed.
   Print Assumptions float_floor_is_floor.
 End Binary64.
+
+(* WHAT THE REGENERATED CODE DOES: the first statement of C20 about the translated functions themselves (update_dimensions of the
+   list-per-voxel grid and get_3d_voxel_index as regenerated from the headers, at R): every point of the closed declared box maps to
+   an existing voxel.  (Convertible with the model: the proof is the model's.) *)
+Theorem regenerated_index_in_range : forall (eps s lx ly lz hx hy hz px py pz : R),
+  0 <= eps -> 0 < s -> box_ok (lx, ly, lz) (hx, hy, hz) -> in_box (lx, ly, lz) (hx, hy, hz) (px, py, pz) ->
+  in_range (update_dimensions_4d_gen NumR Zfloor Zceil eps s (lx, ly, lz) (hx, hy, hz))
+           (idx3_gen NumR Zfloor Zceil (update_dimensions_4d_gen NumR Zfloor Zceil eps s (lx, ly, lz) (hx, hy, hz)) (px, py, pz)) = true.
+Proof. intros eps s lx ly lz hx hy hz px py pz H0 H1 H2 H3. exact (index_in_range eps s (lx, ly, lz) (hx, hy, hz) (px, py, pz) H0 H1 H2 H3). Qed.
+Print Assumptions regenerated_index_in_range.
